@@ -916,8 +916,9 @@ def section_handover(ck, rng, ndefs, model):
     # which server is in the tree?  (finding F29: reassembly buffer never reset)
     probe_rng = __import__("random").Random(7)
     probe = gen_handover(ck, probe_rng, ndefs, nreq=2)
-    pob = run_handover(probe)
-    reset = 1 if pob["raw"] == [r for r, _ in probe["reqs"]] else 0
+    pob = guarded(ck, "handover-scenario-raises", "handover scenario on the channel double (two requests on one connection)",
+                  {"protocol": "handover", "scenario": sc_json(probe)}, lambda: run_handover(probe))
+    reset = 1 if pob is None or pob["raw"] == [r for r, _ in probe["reqs"]] else 0
     ck.notes.append("handover server variant in the tree: %s" % ("buffer reset after each request" if reset else
                                                                  "as found (F29): buffer kept for the whole connection"))
     n_ho = 9000 if ck.thorough else 1400
@@ -936,7 +937,7 @@ def section_handover(ck, rng, ndefs, model):
         nbound += 1 if onb else 0
 
         def one():
-            ob = pob if i == 0 else run_handover(sc)
+            ob = pob if i == 0 and pob is not None else run_handover(sc)
             if ob["cmiu"] is None:
                 ck.fail("handover-connect-failed", "no connection", sc_json(sc))
                 return
